@@ -428,10 +428,17 @@ def baseUuid12 : Bytes := [0xFB, 0x34, 0x9B, 0x5F, 0x80, 0x00, 0x00, 0x80, 0x00,
 /-- `uuid_filter` (src: filter.hpp): `some u` = compare the 16 bit attribute type with `u`;
     `none` = a true 128 bit UUID: no attribute's access function answers `uuid_equal`, so the
     filter never matches -/
-def uuidFilter (t : Bytes) : Option Nat :=
+def uuidFilterRaw (t : Bytes) : Option Nat :=
   if t.length = 16 then
     (if t.take 12 = baseUuid12 ∧ t[14]? = some 0 ∧ t[15]? = some 0 then rd16? t 12 else none)
   else rd16? t 0
+
+/-- since fix dd62180 (`attr.uuid != internal_128bit_uuid && …`) the 16 bit value 0x0001 — the
+    marker of attributes with a 128 bit type, not a type — matches no attribute -/
+def uuidFilter (t : Bytes) : Option Nat :=
+  match uuidFilterRaw t with
+  | some 1 => none
+  | r => r
 
 /-- state of `details::collect_attributes` -/
 structure Collect where
